@@ -5,7 +5,15 @@ package vlib
 // seeded with VERIF_SEED so that a disagreement replays exactly.
 type Rng struct{ s uint64 }
 
-func NewRng(seed uint64) *Rng { return &Rng{s: seed*0x9E3779B97F4A7C15 + 0x1234567} }
+func NewRng(seed uint64) *Rng {
+	// hash the seed first: with a plain affine start NewRng(n+1) would be NewRng(n) advanced
+	// by one step, i.e. neighbouring VERIF_SEEDs would explore almost the same cases.
+	z := seed + 0x1234567
+	z = (z ^ (z >> 30)) * 0xBF58476D1CE4E5B9
+	z = (z ^ (z >> 27)) * 0x94D049BB133111EB
+	z ^= z >> 31
+	return &Rng{s: z * 0x9E3779B97F4A7C15}
+}
 
 func (r *Rng) U64() uint64 {
 	r.s += 0x9E3779B97F4A7C15
